@@ -169,8 +169,20 @@ pub fn reload<T: SerdeAPI>(x: &T, fmt: Fmt, chan: Chan, ctx: &mut Ctx) -> anyhow
                 c.set(v + 1);
                 v
             });
-            let p = scratch_dir().join(format!("t{:?}-{}.{}", std::thread::current().id(), n, fmt.ext()))
-                ;
+            // Storage state the save meets: two times in three the path already holds an OLDER, LONGER checkpoint
+            // (a "latest checkpoint" file rewritten over and over; here: the same rendering followed by a repeat
+            // of its last bytes). Whatever the old file held, the new save must replace it completely.
+            let stale = n % 3 != 2;
+            let p = scratch_dir().join(format!("t{:?}-{}.{}", std::thread::current().id(), if stale { 0 } else { n }, fmt.ext()));
+            if stale {
+                if let Ok(b) = to_bytes(x, fmt) {
+                    let mut old = b.clone();
+                    old.extend_from_slice(&b[b.len().saturating_sub(200)..]);
+                    if std::fs::write(&p, &old).is_ok() {
+                        ctx.hit("fault.disk.older_longer_file_in_place");
+                    }
+                }
+            }
             x.to_file(&p)?;
             let out = T::from_file(&p);
             let _ = std::fs::remove_file(&p);
